@@ -1188,8 +1188,18 @@ fn python_version_to_full_version(specifier: VersionSpecifier) -> Result<Version
         };
 
         Ok(match specifier.operator() {
+            // `python_version ~= 3.7.0` requires `python_version >= 3.7.0` and `python_version == 3.7.*`,
+            // i.e. `python_version == 3.7`; with a non-zero tail the lower bound is unreachable.
+            Operator::TildeEqual => {
+                if specifier.version().release()[2..].iter().all(|segment| *segment == 0) {
+                    VersionSpecifier::equals_star_version(Version::new([major, minor]))
+                } else {
+                    return Err(NodeId::FALSE);
+                }
+            }
+
             // `python_version` cannot have more than two release segments, so equality is impossible.
-            Operator::Equal | Operator::ExactEqual | Operator::EqualStar | Operator::TildeEqual => {
+            Operator::Equal | Operator::ExactEqual | Operator::EqualStar => {
                 return Err(NodeId::FALSE)
             }
 
